@@ -678,4 +678,9 @@ class ExprMixin(object):
         return vals
     if isinstance(v, VPyDict):
       return [VStr(k) for k in v.d]
+    if isinstance(v, (VStr, VBytes)):
+      c = z3.simplify(v.t)
+      if z3.is_string_value(c) and len(c.as_string()) <= 64:
+        txt = c.as_string()
+        return [VStr(ch) for ch in txt] if isinstance(v, VStr) else [VInt(ord(ch)) for ch in txt]
     raise Unsupported('iteration over symbolic-length iterable needs a loop invariant / quantifier')
